@@ -520,6 +520,11 @@ impl MutableArchive {
 
     /// Rename a file in the archive
     ///
+    /// Only the hash table entry moves; the file data stays where it is. An encrypted
+    /// file cannot be renamed this way, because its key derives from its name: such a
+    /// rename is refused with [`Error::UnsupportedFeature`]. Read the file and add it
+    /// under the new name instead.
+    ///
     /// # Parameters
     /// - `old_name`: Current name of the file
     /// - `new_name`: New name for the file
@@ -544,6 +549,21 @@ impl MutableArchive {
         // Get the block index from the old entry
         let block_index = old_entry.block_index;
         let locale = old_entry.locale;
+
+        // The key of an encrypted file derives from its name. Moving the hash entry
+        // alone would leave the data encrypted under the old name's key, unreadable
+        // under the new name.
+        let encrypted = self
+            .block_table
+            .as_ref()
+            .and_then(|table| table.entries().get(block_index as usize))
+            .is_some_and(|block| block.is_encrypted());
+        if encrypted {
+            return Err(Error::unsupported_feature(format!(
+                "Cannot rename encrypted file '{old_name}': its encryption key derives \
+                 from the file name"
+            )));
+        }
 
         // Remove old hash entry
         if let Some(hash_table) = &mut self.hash_table {
